@@ -30,7 +30,7 @@ const c03Consts = "const KV = 10\nconst KW = 7\n"
 
 const (
 	c03Bodies     = 9
-	c03BodiesLoop = 13
+	c03BodiesLoop = 15
 	c03Contexts   = 10
 )
 
@@ -38,9 +38,9 @@ const (
 func c03Alphabet(n int) []int {
 	switch {
 	case n <= 3:
-		return []int{0, 1, 2, 3, 4, 5, 6, 7, 8, 9, 10, 11, 12}
+		return []int{0, 1, 2, 3, 4, 5, 6, 7, 8, 9, 10, 11, 12, 13, 14}
 	case n == 4:
-		return []int{0, 1, 2, 3, 4, 6, 7, 9, 11, 12}
+		return []int{0, 1, 2, 3, 4, 7, 9, 11, 13, 14}
 	case n == 5:
 		return []int{0, 1, 2, 3, 4, 9, 11, 12}
 	}
@@ -74,6 +74,12 @@ func c03Body(b, i int, pre *[]model.Stmt) []model.Stmt {
 		return []model.Stmt{{Kind: model.SLabel, Name: l}, mcmd(c)}
 	case 8:
 		return []model.Stmt{mcmd(c), {Kind: model.SEnd}}
+	case 14: // the whole body is an if around one command: bodies of this kind differ only inside the compound statement
+		return []model.Stmt{{Kind: model.SIf, Arms: []model.Arm{{Cond: mflag(fmt.Sprintf("F%d", i)), Body: []model.Stmt{mcmd(c)}}}}}
+	case 13: // the whole body is a label that a goto before the switch jumps to
+		l := fmt.Sprintf("L%d", i)
+		*pre = append(*pre, model.Stmt{Kind: model.SIf, Arms: []model.Arm{{Cond: mflag(fmt.Sprintf("G%d", i)), Body: []model.Stmt{{Kind: model.SGoto, Name: l}}}}})
+		return []model.Stmt{{Kind: model.SLabel, Name: l}}
 	case 12: // the whole body is an if with an empty block: a body that does nothing is still a body (no sharing)
 		return []model.Stmt{{Kind: model.SIf, Arms: []model.Arm{{Cond: mflag(fmt.Sprintf("F%d", i)), Body: nil}}}}
 	case 11: // the whole body is a break: the case does nothing (it does not share the next case's body the way an empty one does)
@@ -467,7 +473,7 @@ func runC03(tier string) int {
 	r.Assume("reference switch rule: a body-less entry shares the next entry that has a body; trailing body-less entries go to the statement after the switch; default runs iff no case value matches; bodies never fall through; break leaves the switch",
 		"var domain = every case value, its neighbours and 0 (always contains a non-matching value)")
 	return r.Finish(r.Get("evaluations"), r.Get("nontrivial"),
-		"every case list of length n (default at any position or absent) x every assignment of bodies from a 13-body alphabet (a body that is only an if with an empty block, a body that is only a break, a body ending in a hand-written goto_if_set, empty, cmd, cmd+break, break+dead tail, if-break, while-with-break, nested switch, labelled body with goto into it, cmd+end, if-continue in loops; all 13 kinds up to n=3, 10 at n=4, 8 at n=5, 5 beyond) x 10 contexts (alone, first/middle/last, in while, in do-while, in another switch, in infinite while, with case values written as constant expressions, followed by a plain return at the end of an if block or of another switch's case body) x optimize on/off, each also written on a single source line and compiled with line markers (explored again whenever the marker-stripped output differs); plus every case list of length <= 2 (thorough 3) as the statement of a poryswitch case (4 forms) with a var and with AutoVar command operands; plus the dead-label programs (labelled statements after a break in cases, also inside an if whose case body goes on); plus the dead-label programs and all case lists of length <= 2 with every break / closing continue written as the selected case of a poryswitch (3 forms); plus switches with K cases and switches nested K deep for every K up to the scale bounds; non-trivial = >= 2 entries and >= 3 distinct observable events")
+		"every case list of length n (default at any position or absent) x every assignment of bodies from a 15-body alphabet (a body that is only an if around a command, only a jumped-to label, only an if with an empty block, a body that is only a break, a body ending in a hand-written goto_if_set, empty, cmd, cmd+break, break+dead tail, if-break, while-with-break, nested switch, labelled body with goto into it, cmd+end, if-continue in loops; all 15 kinds up to n=3, 10 at n=4, 8 at n=5, 5 beyond) x 10 contexts (alone, first/middle/last, in while, in do-while, in another switch, in infinite while, with case values written as constant expressions, followed by a plain return at the end of an if block or of another switch's case body) x optimize on/off, each also written on a single source line and compiled with line markers (explored again whenever the marker-stripped output differs); plus every case list of length <= 2 (thorough 3) as the statement of a poryswitch case (4 forms) with a var and with AutoVar command operands; plus the dead-label programs (labelled statements after a break in cases, also inside an if whose case body goes on); plus the dead-label programs and all case lists of length <= 2 with every break / closing continue written as the selected case of a poryswitch (3 forms); plus switches with K cases and switches nested K deep for every K up to the scale bounds; non-trivial = >= 2 entries and >= 3 distinct observable events")
 }
 
 // oneLine rewrites a generated source so that every statement sits on one line
